@@ -17,8 +17,8 @@ pkgdir=$(python3 - <<PY
 import json,re
 m=json.load(open("$dst/meta.json"))
 cmd=m.get("demo_cmd","")
-t=cmd.strip().split()[-1]
-print(t if t.startswith("./") or t=="." else ".")
+t=[x for x in cmd.strip().split() if x.startswith("./") or x=="."]
+print(t[-1].rstrip("/") if t else ".")
 PY
 )
 cp $demo $wt/$pkgdir/
